@@ -207,6 +207,9 @@ pub fn run(args: &Args) -> i32 {
             scenario_light_branch_overtakes(&mut rng, &mut r);
         }
     }
+    for _ in 0..args.tier.pick(3, 12) {
+        scenario_refused_heavier_fork(&mut rng, &mut r);
+    }
     let hits = hooks::hits();
     for (k, v) in &hits {
         r.c01.count_n(&format!("hook.{k}"), *v);
@@ -1346,6 +1349,66 @@ fn scenario_light_branch_overtakes(rng: &mut Rng, r: &mut Reports) {
     FIXED_ORDER.with(|f| *f.borrow_mut() = Some(order));
     deliver_and_check(&tg, &gi, &OrderKind::InOrder, 1, 1, false, rng, shape, r);
     FIXED_ORDER.with(|f| *f.borrow_mut() = None);
+}
+
+/// Directed scenario (C20, also C01/C02): a fork becomes the heaviest chain through a block that
+/// fails contextual verification, so the reorganisation is attempted (fork found, main-chain
+/// blocks rolled back inside the database transaction) and refused; afterwards the old main chain
+/// is extended. Side blocks propose other ids than the main blocks of the same heights: whatever
+/// the refused attempt left behind shows in the proposal view of the next published snapshots.
+fn scenario_refused_heavier_fork(rng: &mut Rng, r: &mut Reports) {
+    let mut params = ChainParams::default();
+    params.epoch = EpochMode::Permanent { genesis_len: 100, epoch_len: 100 };
+    let gi = consensus::build(&params);
+    let cfg = TreeCfg { n_blocks: 0, invalid: 0, max_new_txs: 2, junk_proposals: 2, uncle_pm: 0, fork_pm: 0, ..Default::default() };
+    let mut tg = TreeGen::new(&gi, cfg, rng.next_u64());
+    // the builder works depth first: common prefix, then the side branch (with the block that
+    // would overtake and its invalid twin), then back to the fork point for the main chain
+    let mut tip = tg.rc.genesis;
+    let mut prefix: Vec<H> = vec![];
+    let pre_len = 6 + rng.usize_below(4);
+    for _ in 0..pre_len {
+        tip = tg.extend(&tip);
+        prefix.push(tip);
+    }
+    let fork_point = tip;
+    let depth = 2 + rng.usize_below(2);
+    let mut side: Vec<H> = vec![];
+    let mut cur = fork_point;
+    for _ in 0..depth {
+        cur = tg.extend(&cur);
+        side.push(cur);
+    }
+    let over = tg.extend(&cur);
+    let mut kinds = vec![vnode::treegen::Mutation::DaoField, vnode::treegen::Mutation::BadChainRoot, vnode::treegen::Mutation::RewardPlusOne];
+    rng.shuffle(&mut kinds);
+    let mut found = None;
+    for k in kinds {
+        if let Some(t) = tg.mutate(&over, k) {
+            found = Some((t, k));
+            break;
+        }
+    }
+    let Some((twin, kind)) = found else { return };
+    let m = tg.rc.add(&twin, false, Some(&format!("{kind:?}")), tg.rc.get(&over).epoch.clone());
+    tg.order.push(m);
+    // main chain: as long as the side branch first (delivered before it: stays the tip), then on
+    let mut main_rest: Vec<H> = vec![];
+    let mut cur = fork_point;
+    for _ in 0..(depth + 3) {
+        cur = tg.extend(&cur);
+        main_rest.push(cur);
+    }
+    let mut order: Vec<H> = prefix.clone();
+    order.extend(main_rest[..depth].iter().cloned());
+    order.extend(side.iter().cloned());
+    order.push(m);
+    order.extend(main_rest[depth..].iter().cloned());
+    let shape = model::tree_shape(&tg.rc, &tg.order);
+    FIXED_ORDER.with(|f| *f.borrow_mut() = Some(order));
+    deliver_and_check(&tg, &gi, &OrderKind::InOrder, 1, 1, false, rng, shape, r);
+    FIXED_ORDER.with(|f| *f.borrow_mut() = None);
+    r.c20.count("scenario.refused_heavier_fork_runs");
 }
 
 fn deliver_fixed(tg: &TreeGen, gi: &GenesisInfo, order: Vec<H>, rng: &mut Rng, shape: u64, r: &mut Reports) {
